@@ -766,3 +766,97 @@ func runR811(c *core.Ctx) {
 		c.Undecided("R8.11", "orcas#wrapped-gets", "-", "no get handed to a wrapped orchestrator by a wrapper holding the muting responder")
 	}
 }
+
+// ---------------------------------------------------------------- R8.14
+
+// runR814: the body of a binary get reply is extras then value, and the extras are flags first and - for gete, rend's
+// extension - the expiry second: the order in which std.GetLocal and the pool reader read them back. For every binary
+// responder function that answers with a GetResponse / GetEResponse, the ordered list of fields it writes after the
+// header is [Flags, Data] resp. [Flags, Exptime, Data].
+func runR814(c *core.Ctx) {
+	c.Rule("R8.14", "a binary get reply carries flags, then (gete) the expiry, then the value - the order in which clients and rend's own backend readers decode it", 2)
+	pv := &ssax.Prov{}
+	n := 0
+	for _, fn := range pkgFuncs(c, "protocol/binprot") {
+		var resp *ssa.Parameter
+		for _, p := range fn.Params {
+			t := ssax.ShortType(p.Type())
+			if strings.HasSuffix(t, "common.GetResponse") || strings.HasSuffix(t, "common.GetEResponse") {
+				resp = p
+			}
+		}
+		if resp == nil {
+			continue
+		}
+		fieldOf := func(v ssa.Value) string {
+			if mi, ok := v.(*ssa.MakeInterface); ok {
+				v = mi.X
+			}
+			for _, s := range pv.Sources(v) {
+				if s.Kind == "param" && s.V == ssa.Value(resp) && len(s.Path) == 1 {
+					return s.Path[0]
+				}
+			}
+			return ""
+		}
+		// local byte buffers filled with one field through PutUintNN
+		filled := map[ssa.Value]string{}
+		type item struct {
+			pos   token.Pos
+			field string
+		}
+		var seq []item
+		ssax.Instrs(fn, func(ins ssa.Instruction) {
+			cc := ssax.CallOf(ins)
+			if cc == nil {
+				return
+			}
+			name := ssax.CalleeName(cc)
+			switch {
+			case strings.HasPrefix(name, "(encoding/binary.bigEndian).PutUint"), strings.HasPrefix(name, "(encoding/binary.littleEndian).PutUint"):
+				if f := fieldOf(cc.Args[len(cc.Args)-1]); f != "" {
+					for _, d := range ssax.Defs(cc.Args[len(cc.Args)-2]) {
+						filled[ssax.Unwrap(d)] = f
+					}
+					filled[ssax.Unwrap(cc.Args[len(cc.Args)-2])] = f
+				}
+			case name == "encoding/binary.Write":
+				if f := fieldOf(cc.Args[2]); f != "" {
+					seq = append(seq, item{ins.Pos(), f})
+				}
+			case name == "(*bufio.Writer).Write":
+				buf := cc.Args[1]
+				if f, ok := filled[ssax.Unwrap(buf)]; ok {
+					seq = append(seq, item{ins.Pos(), f})
+				} else if f := fieldOf(buf); f != "" {
+					seq = append(seq, item{ins.Pos(), f})
+				} else {
+					for _, d := range ssax.Defs(buf) {
+						if f, ok := filled[ssax.Unwrap(d)]; ok {
+							seq = append(seq, item{ins.Pos(), f})
+						}
+					}
+				}
+			}
+		})
+		if len(seq) == 0 {
+			continue
+		}
+		sort.Slice(seq, func(i, j int) bool { return seq[i].pos < seq[j].pos })
+		var got []string
+		for _, it := range seq {
+			got = append(got, it.field)
+		}
+		want := []string{"Flags", "Data"}
+		if strings.HasSuffix(ssax.ShortType(resp.Type()), "GetEResponse") {
+			want = []string{"Flags", "Exptime", "Data"}
+		}
+		n++
+		key := core.FuncName(fn) + "#body-order"
+		c.Check(strings.Join(got, ",") == strings.Join(want, ","), "R8.14", key, c.P.Pos(fn.Pos()), "writes "+strings.Join(got, ", "),
+			"the reply body is written as "+strings.Join(got, ", ")+" where the protocol (and every reader in this repository) expects "+strings.Join(want, ", ")+": the client decodes the expiry as flags / the value is shifted")
+	}
+	if n == 0 {
+		c.Undecided("R8.14", "binprot#get-reply-bodies", "-", "no binary responder function writing a get response found")
+	}
+}
